@@ -155,7 +155,30 @@ impl Check for C05 {
                     (v.is_ok() as u64) | ((v.is_incomplete() as u64) << 1),
                 );
                 st.oracle_evals += 1;
-                // coherence of the completeness flags
+                // coherence of the completeness flags, at every level that implements PartialResult
+                let levels = v.flag_levels();
+                let disagree = levels
+                    .iter()
+                    .find(|(_, c, i)| c == i || *i != levels[0].2)
+                    .map(|(name, c, i)| (*name, *c, *i));
+                if let Some((name, c, i)) = disagree {
+                    local.push(viol(
+                        "C05",
+                        "flags_not_negation",
+                        entry,
+                        view(entry, step.buf),
+                        v.kind(),
+                        format!(
+                            "for input {:?} the {} level reports is_complete() = {}, is_incomplete() = {} (outermost level: is_incomplete() = {})",
+                            printable(view(entry, step.buf), 120),
+                            name,
+                            c,
+                            i,
+                            levels[0].2
+                        ),
+                    ));
+                    return false;
+                }
                 if v.is_complete() == v.is_incomplete() {
                     local.push(viol(
                         "C05",
